@@ -121,6 +121,12 @@ MUTANTS: List[Tuple[str, str, str, str]] = [
     ("optional-arguments-default-to-none", "optional defaults to 0.0", "        color: Optional[Color] = None,", "        color: Optional[Color] = 0.0,"),
     ("optional-arguments-default-to-none", "optional defaults to 1", "        color: Optional[Color] = None,", "        color: Optional[Color] = 1,"),
     ("optional-arguments-default-to-none", "optional defaults to a text", "        color: Optional[Color] = None,", '        color: Optional[Color] = "abc",'),
+    # an invariant may not use a construct whose meaning the transpilers would change: the condition of a generator
+    ("supported-invariant-forms", "generator expression with a condition",
+     '@invariant(lambda self: not (self.tags is not None) or len(self.tags) >= 1, "Tags non-empty")',
+     '@invariant(lambda self: not (self.tags is not None) or all(len(tag) > 0 for tag in self.tags if tag != "-"), '
+     '"Tags filled")\n'
+     '@invariant(lambda self: not (self.tags is not None) or len(self.tags) >= 1, "Tags non-empty")'),
     ("supported-type-shapes", "nested optional", "    color: Optional[Color]\n", "    color: Optional[Optional[Color]]\n"),
     ("supported-type-shapes", "list of optionals", "    tags: Optional[List[str]]\n", "    tags: Optional[List[Optional[str]]]\n"),
     ("supported-type-shapes", "unknown type", "    ident: Id_string\n", "    ident: Unknown_type\n"),
